@@ -101,11 +101,12 @@ def all_cases(tier):
     n = [0]
 
     def add(**kw):
-        n[0] += 1
-        c = {'n': n[0], 'kind': 'product', 'cc': [], 'lines': None, 'req_lines': None, 'req_ns': False, 'auth': False,
-             'fresh': 'none', 'status': 200, 'req2': 'same', 'syntax': None}
-        c.update(kw)
-        cases.append(c)
+        for reval in ('200', '304'):
+            n[0] += 1
+            c = {'n': n[0], 'kind': 'product', 'cc': [], 'lines': None, 'req_lines': None, 'req_ns': False, 'auth': False,
+                 'fresh': 'none', 'status': 200, 'req2': 'same', 'syntax': None, 'reval': reval}
+            c.update(kw)
+            cases.append(c)
 
     subsets = []
     for r in range(len(DIRECTIVES) + 1):
@@ -184,14 +185,23 @@ def _request(w, case, which):
 def run_case(w, case):
     arrivals = []
 
+    etag = '"c11-%d"' % case['n']
+    lm = ls.http_date(w.sq.now_us - 30 * 86400 * 1_000_000)
+
     def responder(m):
         k = len(arrivals) + 1
         arrivals.append(m)
         body = b'c11-%d-arrival-%d' % (case['n'], k)
         now = w.sq.now_us
         st = case['status']
-        h = ['HTTP/1.1 %d %s' % (st, REASONS[st]), 'Date: ' + ls.http_date(now), 'Content-Type: text/plain',
-             'Content-Length: %d' % len(body)]
+        inm, ims = m.get('if-none-match'), m.get('if-modified-since')
+        not_modified = (case['reval'] == '304' and k > 1 and
+                        ((inm is not None and etag in inm) or (inm is None and ims is not None and ims == lm)))
+        if not_modified:
+            h = ['HTTP/1.1 304 Not Modified', 'Date: ' + ls.http_date(now), 'ETag: ' + etag]
+        else:
+            h = ['HTTP/1.1 %d %s' % (st, REASONS[st]), 'Date: ' + ls.http_date(now), 'Content-Type: text/plain',
+                 'Content-Length: %d' % len(body), 'ETag: ' + etag]
         if st in (300, 301):
             h.append('Location: http://127.0.0.1:%d/elsewhere' % w.origin_port)
         if case['lines'] is not None:
@@ -201,8 +211,8 @@ def run_case(w, case):
         if case['fresh'] in ('exp+lm', 'exp'):
             h.append('Expires: ' + ls.http_date(now + 3600 * 1_000_000))
         if case['fresh'] in ('exp+lm', 'lm'):
-            h.append('Last-Modified: ' + ls.http_date(now - 30 * 86400 * 1_000_000))
-        return ('\r\n'.join(h) + '\r\n\r\n').encode('latin1') + body
+            h.append('Last-Modified: ' + lm)
+        return ('\r\n'.join(h) + '\r\n\r\n').encode('latin1') + (b'' if not_modified else body)
 
     ex1 = w.fetch(_request(w, case, 1), responder)
     a1 = len(arrivals)
@@ -217,6 +227,7 @@ def run_case(w, case):
     ok2 = r2 is not None and not r2.error and r2.complete
     why = forbidden_reasons(case)
     violation = None
+    a2 = a2 if ok1 else 0
     if not ok1:
         outcome = 'first-request-not-served(status %s, arrivals %d)' % (r1.status if r1 else None, a1)
     elif not ok2:
@@ -229,13 +240,19 @@ def run_case(w, case):
         else:
             cond = any(m.has('if-modified-since') or m.has('if-none-match') for m in arrivals[a1:])
             outcome = ('forbidden' if why else 'storable') + (':revalidated' if cond else ':refetched')
+            if replayed:
+                outcome += '+STORED-BODY-SERVED' if why else '+stored-body-served'
         if why and a2 == 0:
             violation = ('request 2 was answered without contacting the origin (status %d, body %r) although storing was forbidden by %s; '
                          'response headers of request 1: %s; request-1 extras: %s' % (
                              r2.status, r2.body[:40], '+'.join(why), _resp_cc(case), _req_desc(case)))
         elif why and replayed:
-            violation = ('request 2 reached the origin (%d arrivals) but the client was given the stored body of arrival 1 again '
-                         'although storing was forbidden by %s; response headers: %s' % (a2, '+'.join(why), _resp_cc(case)))
+            violation = ('request 2 reached the origin (%d arrival(s), %s) but the client was then given the stored body of arrival 1 '
+                         'from cache although storing was forbidden by %s; response headers of request 1: %s; request-1 extras: %s' % (
+                             a2, 'answered 304 Not Modified' if case['reval'] == '304' else 'answered 200 with a new body',
+                             '+'.join(why), _resp_cc(case), _req_desc(case)))
+    if violation:
+        VCLASS[case['n']] = 'served-after-304' if (a2 > 0 and case['reval'] == '304') else 'other'
     return {'outcome': outcome, 'violation': violation, 'transcript': transcript}
 
 
@@ -252,12 +269,19 @@ def _req_desc(case):
     return ' '.join(d) or 'none'
 
 
+VCLASS = {}      # case number -> violation class observed by run_case in this process (refines the key)
+
+
 def key_of(case):
     why = '+'.join(forbidden_reasons(case)) or 'storable'
+    if VCLASS.get(case['n']) == 'served-after-304' and why == 'auth-without-shared-permission' and 'no-cache' in case['cc'] \
+            and case['kind'] == 'product' and case['status'] == 200:
+        # one root cause (the no-cache exemption for authenticated responses in reusableReply): one key
+        return 'auth-without-shared-permission:resp-no-cache:stored-and-served-after-304'
     if case['kind'] in ('resp-syntax', 'req-syntax'):
-        return '%s:%s:auth=%d:%s' % (case['kind'], case['syntax'], case['auth'], ','.join(case['cc']))
-    return '%s:[%s]:cc=%s:fresh=%s:status=%d:req2=%s' % (case['kind'], why, ','.join(case['cc']) or '-', case['fresh'],
-                                                          case['status'], case['req2'])
+        return '%s:%s:auth=%d:%s:reval=%s' % (case['kind'], case['syntax'], case['auth'], ','.join(case['cc']), case['reval'])
+    return '%s:[%s]:cc=%s:fresh=%s:status=%d:req2=%s:reval=%s' % (case['kind'], why, ','.join(case['cc']) or '-', case['fresh'],
+                                                                   case['status'], case['req2'], case['reval'])
 
 
 ASSUME = ['the real squid binary (ASan build of the current tree) runs under the lock-step/virtual-time shim with its default refresh rules '
@@ -293,7 +317,7 @@ def run(ctx):
     hits = oc.get('storable:served-from-cache', 0)
     forb = sum(v for k, v in oc.items() if k.startswith('forbidden'))
     complete = not r['deadline_hit'] and r['evaluations'] == len(cases)
-    if not r['violations'] and complete:
+    if complete:
         if nontrivial < len(cases) * 9 // 10:
             raise HarnessError('vacuity guard: only %d of %d cases ran both requests to completion: %r' % (nontrivial, len(cases), oc))
         if hits < 50:
